@@ -27,9 +27,25 @@ def _build():
         return os.path.join(tgt, 'debug', 'verif-replay'), ''
 
 
+_memo = {}
+_built = {}
+
+
 def _run(args, timeout=None, skip=None):
+    # one check process asks for the same search once per failed obligation: run each (search, skip list) once
+    key = json.dumps([args, skip, TIER], sort_keys=True)
+    if key in _memo:
+        return _memo[key]
+    r = _run1(args, timeout, skip)
+    _memo[key] = r
+    return r
+
+
+def _run1(args, timeout=None, skip=None):
     timeout = timeout or (3000 if TIER == 'thorough' else 600)
-    exe, err = _build()
+    if 'exe' not in _built:
+        _built['exe'] = _build()
+    exe, err = _built['exe']
     if exe is None:
         return {'found': False, 'error': True, 'how': 'replay crate failed to build against the current tree: ' + err}
     try:
